@@ -1,4 +1,5 @@
 import Agd.Model.Pools
+import Agd.Model.PoolCtx
 import Agd.Driver.Util
 /-! Line-protocol driver for the C07 model (cloner pools as an ownership model).
 
@@ -12,7 +13,14 @@ Ops (numbers separated by blanks):
 * `q <op>` — the same op, answered with `<recycle flags> q` only (steps that take several lines)
 
 Answer: `<recycle flags> <alias><capalias> <dump>` where the dump lists, for every live handle `< 8`, the kinds and
-values of its objects as read through the heap. -/
+values of its objects as read through the heap.
+
+The pooled request contexts (`Model/PoolCtx.lean`; a state of its own next to the cloner's):
+* `creset`
+* `cget r k` — request `r` takes a context out of the pool (`k`: which one); answer: `new` or `recycled`
+* `cset r f v` — plain fill; `cfill r f ok v hasDflt d` — a fill with an error branch (`BFill`)
+* `cread r f1 f2 …` — answer: the values read, blank-separated (`-` if `r` holds nothing)
+* `cput r` -/
 namespace Agd.Driver.C07
 open Agd.Pools Agd.Driver
 
@@ -67,6 +75,29 @@ def step (s : St) : List String → St × String
     | some r => answer r.1 r.2
     | none => (s, "bad-op")
 
-def main : IO Unit := loop step St.init
+/-- The ops of the context model; `none`: not one of them. -/
+def cstep (c : Agd.PoolCtx.St) : List String → Option (Agd.PoolCtx.St × String)
+  | ["creset"] => some (Agd.PoolCtx.St.init, "ok")
+  | ["cget", r, k] =>
+    let fresh := c.pool.length == 0 || (c.held (nat! r)).isSome
+    some (Agd.PoolCtx.step c (.get (nat! r) (nat! k)), if fresh then "new" else "recycled")
+  | ["cset", r, f, v] => some (Agd.PoolCtx.step c (.set (nat! r) (nat! f) (nat! v)), "ok")
+  | ["cfill", r, f, ok, v, hasD, d] =>
+    let b : Agd.PoolCtx.BFill := { f := nat! f, ok := bool! ok, v := nat! v, dflt := if bool! hasD then some (nat! d) else none }
+    some (Agd.PoolCtx.run c (b.ops (nat! r)), "ok")
+  | "cread" :: r :: fs =>
+    let c' := Agd.PoolCtx.step c (.read (nat! r) (fs.map nat!))
+    match c.held (nat! r) with
+    | none => some (c', "-")
+    | some _ => some (c', " ".intercalate (((c'.out (nat! r)).headD []).map toString))
+  | ["cput", r] => some (Agd.PoolCtx.step c (.put (nat! r)), "ok")
+  | _ => none
+
+def step2 (s : St × Agd.PoolCtx.St) (ws : List String) : (St × Agd.PoolCtx.St) × String :=
+  match cstep s.2 ws with
+  | some r => ((s.1, r.1), r.2)
+  | none => let r := step s.1 ws; ((r.1, s.2), r.2)
+
+def main : IO Unit := loop step2 (St.init, Agd.PoolCtx.St.init)
 
 end Agd.Driver.C07
